@@ -19,6 +19,10 @@
        derive_keeps_sharing in Proofs/C08_Lagrange.v)
      * this repository's glue:
          tss/ecdsa/signing/signing.go   processEndMessage          [release]
+         the (blocking) send on the caller's result channel, read by the executors' watchExecution
+         whenever it gets round to it                               [result_channel]
+         tss/frost/signing/signing.go   Derive in NewSigning, not in the re-runnable Run
+                                                                    [frost_attempt_share]
          tss/ecdsa/common/utils.go      CreatePartyID, PartiesFromPeers (+ tss.SortPartyIDs)
                                                                     [party_key, sort_keys]
          tss/ecdsa/resharing/resharing.go  sortParties, validateStartParams
@@ -131,6 +135,73 @@ Definition release {S : Type} (coordinator : bool) (sig : S) : option S :=
    initiate -> Run(ctx, true, ...), waitForStart -> Run(ctx, false, ...)) *)
 Definition session_release {S : Type} (n coord : nat) (sig : S) : list (option S) :=
   map (fun i => release (Nat.eqb i coord) sig) (seq 0 n).
+
+(* The result channel.  processEndMessage (ECDSA and FROST signing) hands its value over with a plain
+   channel send, `s.resultChn <- v`: it waits until the value is taken.  The channel belongs to the
+   caller: unbuffered in the EVM and Substrate executors (chains/evm/executor/executor.go: sigChn :=
+   make(chan interface{})), of capacity len(tx.TxIn) in the BTC executor, and its reader
+   (watchExecution) may be busy when the session ends.  A send of one value into a channel of capacity
+   cap either parks the value in the buffer (cap > 0) or blocks the sender until a receiver comes
+   (cap = 0); either way the value is still there whenever the reader gets round to receiving.
+   [slot] = where that one value is; the reader performs [n] receive operations, at whatever time. *)
+Inductive slot (V : Type) := Buffered (v : V) | Blocked (v : V) | Empty.
+Arguments Buffered {V} v.
+Arguments Blocked {V} v.
+Arguments Empty {V}.
+
+Definition send_blocking {V : Type} (cap : nat) (v : V) : slot V :=
+  if (0 <? cap)%nat then Buffered v else Blocked v.
+
+Definition recv {V : Type} (s : slot V) : slot V * option V :=
+  match s with
+  | Buffered v | Blocked v => (Empty, Some v)
+  | Empty => (Empty, None)
+  end.
+
+Fixpoint reader_receives {V : Type} (s : slot V) (n : nat) : list V :=
+  match n with
+  | O => []
+  | S k => match recv s with
+           | (s', Some v) => v :: reader_receives s' k
+           | (s', None) => reader_receives s' k
+           end
+  end.
+
+(* what the reader of the result channel of one process gets: exactly the value processEndMessage
+   releases, once, for every capacity and every number (>= 1) / time of receive operations *)
+Definition result_channel {S : Type} (coordinator : bool) (sig : S) (cap reads : nat) : list (option S) :=
+  reader_receives (send_blocking cap (release coordinator sig)) reads.
+
+(* NOT what the code does - a send that gives up when it cannot complete at once (`select { case ch <-
+   v: default: }`): the value survives only in a buffer or with a receiver already parked.  Kept so
+   that the model can tell the two apart (Proofs: nonblocking_send_loses). *)
+Definition send_nonblocking {V : Type} (cap : nat) (reader_parked : bool) (v : V) : slot V :=
+  if (0 <? cap)%nat then Buffered v else if reader_parked then Blocked v else Empty.
+
+Definition got_sig {S : Type} (l : list (option S)) : bool :=
+  existsb (fun o => match o with Some _ => true | None => false end) l.
+
+(* judge of what the reader of one ECDSA process's result channel received: the signature iff the
+   process is the coordinator's *)
+Definition release_ok (coordinator got_signature : bool) : bool := Bool.eqb got_signature coordinator.
+
+(* frost/signing.go: the Taproot tweak is applied to the key share ONCE, in NewSigning
+   (TaprootConfig.Derive: share' = share + tweak, negated when the tweaked public key has odd y -
+   [neg], an elliptic-curve fact that enters as an input).  Run - which tss.Coordinator calls AGAIN on
+   the same object after a retryable failure (handleError -> retry -> start -> Run) - signs with the
+   share it finds.  The share a process signs with in its k-th attempt (k = 0, 1, ...): *)
+Definition derive_share (q : Z) (neg : bool) (share tweak : Z) : Z :=
+  let s := addm q share tweak in if neg then (q - s) mod q else s.
+
+Definition frost_attempt_share (q : Z) (neg : bool) (share tweak : Z) (k : nat) : Z :=
+  derive_share q neg share tweak.
+
+(* NOT what the code does: Derive inside Run would tweak once more per attempt *)
+Fixpoint derive_in_run_share (q : Z) (neg : bool) (share tweak : Z) (k : nat) : Z :=
+  match k with
+  | O => derive_share q neg share tweak
+  | S k' => derive_share q neg (derive_in_run_share q neg share tweak k') tweak
+  end.
 
 (* utils.go CreatePartyID: key = big.Int.SetBytes([]byte(peerID)) - big-endian value of the bytes *)
 Definition party_key (bytes : list N) : Z :=
